@@ -665,6 +665,25 @@ func rulesC07(w *World, o *Out) {
 		for _, req := range c07Required[action] {
 			o.Check("C07.R1", action+"|expected call data depends on "+req, covered(req, D) || coveredBelow(req, D), w.Pos(df.Pos()), "D="+strings.Join(keys(D), ","))
 		}
+		// the signatures compared are a prefix of the collected ones (the relayer built its transaction before later
+		// signatures arrived): every slice of GetSignData() starts at 0
+		for _, g := range unitFuncs(df) {
+			for _, b := range g.Blocks {
+				for _, in := range b.Instrs {
+					sl, isSl := in.(*ssa.Slice)
+					if !isSl || sl.Low == nil {
+						continue
+					}
+					if k, isK := sl.Low.(*ssa.Const); isK && k.Value != nil && k.Int64() == 0 {
+						continue
+					}
+					if fl.DependsOnCall(sl.X, func(c Callee) bool { return c.Name == "GetSignData" }) == nil {
+						continue
+					}
+					o.Fail("C07.R1", action+"|accepted signature lists are prefixes of the collected signatures", w.Pos(sl.Pos()), "a slice of msg.GetSignData() with a non-zero lower bound drops the earliest signatures: a transaction that omits them is accepted, the relayer's own is refused")
+				}
+			}
+		}
 		// ... on the whole field: a variable-length message field is not cut to a fixed width on the way into the
 		// expected call data (copy into a window of a fixed-size array keeps only as many bytes as the window holds)
 		for _, g := range unitFuncs(df) {
@@ -995,7 +1014,66 @@ func rulesC07(w *World, o *Out) {
 			}
 		}
 		o.Check("C07.R5", "attestMessageWrapper|deferred cache write present", found, w.Pos(amw.Pos()), "the cached context must be written by a deferred closure")
+		// removal and effects live and die together: the message is removed on the cached context
+		var cacheCtx ssa.Value
+		for _, c := range CallsIn(amw) {
+			if c.Callee.Name == "CacheContext" && c.Value() != nil {
+				for _, r := range *c.Value().Referrers() {
+					if ex, isEx := r.(*ssa.Extract); isEx && ex.Index == 0 {
+						cacheCtx = ex
+					}
+				}
+			}
+		}
+		rm := FindCalls(amw, true, func(c Callee) bool { return c.Name == "Remove" && c.Iface })
+		o.Count("C07.R5 queue removals in attestMessageWrapper", len(rm), 1)
+		for _, r := range rm {
+			ok := false
+			if cacheCtx != nil && len(r.Args()) > 1 {
+				a := canon(r.Args()[1])
+				if a == cacheCtx {
+					ok = true
+				}
+				for _, cv := range capturedValues(r.Fn, a) {
+					if canon(cv) == cacheCtx {
+						ok = true
+					}
+				}
+			}
+			o.Check("C07.R5", "attestMessageWrapper|the message is removed on the cached context", ok, w.Pos(r.Instr.Pos()), "q.Remove must be given the context returned by CacheContext: on the parent context the removal survives an attestation whose effects are discarded (or the reverse)")
+		}
 	}
+	// a branch of the state that is written back by a deferred call inside a loop is written back only when the
+	// function returns: every iteration then works on the state as it was before the loop
+	nDefer := 0
+	for _, f := range w.ProdFuncs {
+		if f.Parent() != nil || len(f.Blocks) == 0 {
+			continue
+		}
+		for _, b := range f.Blocks {
+			for _, in := range b.Instrs {
+				d, isD := in.(*ssa.Defer)
+				if !isD {
+					continue
+				}
+				ex, isEx := canon(d.Call.Value).(*ssa.Extract)
+				if !isEx || ex.Index != 1 {
+					continue
+				}
+				cc, isC := ex.Tuple.(*ssa.Call)
+				if !isC {
+					continue
+				}
+				if cal, okc := CalleeOf(cc.Common()); !okc || cal.Name != "CacheContext" {
+					continue
+				}
+				nDefer++
+				inLoop := ReachAvoiding(f, d, map[ssa.Instruction]bool{d: true}, nil) != nil
+				o.Check("C07.R5", w.FuncKey(f)+"|a cache context is not written back by a defer inside a loop", !inLoop, w.Pos(d.Pos()), "deferred write-backs run when the function returns: messages processed in one pass do not see each other's effects (e.g. the processed-transaction record), so one remote transaction can prove two messages")
+			}
+		}
+	}
+	_ = nDefer
 }
 
 // receiptGate: a block reads GetReceipt() status, and from the "status != successful" edge the dispatch is unreachable.
@@ -1179,3 +1257,39 @@ func isKeeperRead(c Callee) bool {
 	return strings.HasPrefix(c.Pkg, modPath) && strings.Contains(c.Pkg, "/keeper")
 }
 func feedsOnly(fl *Flow, c *ssa.Call, base ssa.Value) bool { return true }
+
+// capturedValues: for a load of a free variable of closure g, the values stored into the captured slot in the
+// enclosing function.
+func capturedValues(g *ssa.Function, v ssa.Value) []ssa.Value {
+	u, ok := v.(*ssa.UnOp)
+	if !ok {
+		return nil
+	}
+	fv, ok := u.X.(*ssa.FreeVar)
+	if !ok || g.Parent() == nil {
+		return nil
+	}
+	idx := -1
+	for i, x := range g.FreeVars {
+		if x == fv {
+			idx = i
+		}
+	}
+	var out []ssa.Value
+	for _, b := range g.Parent().Blocks {
+		for _, in := range b.Instrs {
+			mc, isMC := in.(*ssa.MakeClosure)
+			if !isMC || mc.Fn != g || idx < 0 || idx >= len(mc.Bindings) {
+				continue
+			}
+			if al, isA := mc.Bindings[idx].(*ssa.Alloc); isA {
+				for _, r := range *al.Referrers() {
+					if st, isSt := r.(*ssa.Store); isSt && st.Addr == ssa.Value(al) {
+						out = append(out, st.Val)
+					}
+				}
+			}
+		}
+	}
+	return out
+}
